@@ -2780,10 +2780,11 @@ class RockRidge:
         else:
             # Not enough room in the directory record, so proceed to
             # the continuation entry directly.
+            if self.dr_entries.ce_record is None:
+                return -1
             curr_comp_area_length = RRSLRecord.maximum_component_area_length()
             self.ce_entries.sl_records.append(curr_sl)
-            if self.dr_entries.ce_record is not None:
-                self.dr_entries.ce_record.add_record(sl_rec_header_len)
+            self.dr_entries.ce_record.add_record(sl_rec_header_len)
             sl_in_dr = False
 
         for index, comp in enumerate(symlink_path.split(b'/')):
@@ -2807,8 +2808,14 @@ class RockRidge:
                 minimum = RRSLRecord.Component.length(mincomp)
                 if minimum > curr_comp_area_length:
                     # There wasn't enough room in the last SL record
-                    # for more data.  Set the 'continued' flag on the old
-                    # SL record, and then create a new one.
+                    # for more data.  The next SL record has to live in the
+                    # continuation area, so if this entry has none we have to
+                    # start over with one.
+                    if self.dr_entries.ce_record is None:
+                        return -1
+
+                    # Set the 'continued' flag on the old SL record, and then
+                    # create a new one.
                     curr_sl.set_continued()
                     if offset != 0:
                         # If we need to continue this particular
